@@ -6,6 +6,9 @@
 //! 1. `assignable`: `ast::Type::is_assignable_to(&other)`  ==  AreTypesCompatible(self, other);
 //! 2. `usage`: for `query($v: A [= d]) { f(arg: $v) }` against `type Query { f(arg: B [= ld]): Int }`
 //!    the presence of a `DisallowedVariableUsage` diagnostic == NOT IsVariableUsageAllowed(A, d, B, ld);
+//!    the same case is repeated with the variable nested in an input object field (`{req: $v}`,
+//!    `req: B [= ld]`) and in a list item (`[$v]` for `[B]`), where the rejection is reported as
+//!    `UnsupportedValueType "... found a variable"`;
 //! 3. `impl`: for `interface I { f: A } type O implements I { f: B }` the presence of an
 //!    `InvalidImplementationFieldType` diagnostic about `O.f` == NOT IsValidImplementationFieldType(B, A).
 //!
@@ -80,6 +83,29 @@ fn impl_world() -> TypeWorld {
     w
 }
 
+/// The same usage case with the variable in a nested position: `field` = the value of an input
+/// object field of type B (with or without the field default), `item` = an item of a `[B]` argument
+/// (no location default exists there). IsVariableUsageAllowed applies to these usages unchanged.
+pub fn usage_texts_at(pos: &str, a: &Ty, d: &str, b: &Ty, ld: bool) -> (String, String) {
+    let dv = match d {
+        "literal" => format!(" = {}", literal_for(a)),
+        "null" => " = null".to_string(),
+        _ => String::new(),
+    };
+    let ldv = if ld { format!(" = {}", literal_for(b)) } else { String::new() };
+    match pos {
+        "field" => (
+            format!("type Query {{ f(arg: W): Int }}\ninput W {{ req: {}{} }}\ninput In {{ a: Int }}\nenum E {{ V }}\n", b.text(), ldv),
+            format!("query($v: {}{}) {{ f(arg: {{req: $v}}) }}\n", a.text(), dv),
+        ),
+        "item" => (
+            format!("type Query {{ f(arg: [{}]): Int }}\ninput In {{ a: Int }}\nenum E {{ V }}\n", b.text()),
+            format!("query($v: {}{}) {{ f(arg: [$v]) }}\n", a.text(), dv),
+        ),
+        _ => usage_texts(a, d, b, ld),
+    }
+}
+
 pub fn usage_texts(a: &Ty, d: &str, b: &Ty, ld: bool) -> (String, String) {
     let schema = format!(
         "type Query {{ f(arg: {}{}): Int }}\ninput In {{ a: Int }}\nenum E {{ V }}\n",
@@ -150,10 +176,10 @@ fn check_assignable(ctx: &mut Ctx, a: &Ty, b: &Ty) {
     }
 }
 
-fn check_usage(ctx: &mut Ctx, a: &Ty, d: &str, b: &Ty, ld: bool) {
+fn check_usage(ctx: &mut Ctx, pos: &str, a: &Ty, d: &str, b: &Ty, ld: bool) {
     ctx.eval();
-    let (schema_text, doc_text) = usage_texts(a, d, b, ld);
-    let case = json!({"part": "usage", "a": a.text(), "d": d, "b": b.text(), "ld": ld, "schema": schema_text, "document": doc_text});
+    let (schema_text, doc_text) = usage_texts_at(pos, a, d, b, ld);
+    let case = json!({"part": "usage", "pos": pos, "a": a.text(), "d": d, "b": b.text(), "ld": ld, "schema": schema_text, "document": doc_text});
     let expected = tr::is_variable_usage_allowed(a, default_kind(d), b, ld);
     let r = rt::catch(|| {
         let schema = match Schema::parse_and_validate(schema_text.clone(), "schema.graphql") {
@@ -171,7 +197,13 @@ fn check_usage(ctx: &mut Ctx, a: &Ty, d: &str, b: &Ty, ld: bool) {
             ctx.inconclusive(&format!("the schema of a usage case was rejected: {schema_errors:?}"), case);
         }
         Ok(Ok(diags)) => {
-            let others: Vec<&(String, String)> = diags.iter().filter(|(n, _)| n != "DisallowedVariableUsage").collect();
+            // in a nested position apollo-compiler reports the disallowed usage as an
+            // UnsupportedValueType "... found a variable" diagnostic on the enclosing value
+            let nested = pos != "arg";
+            let others: Vec<&(String, String)> = diags
+                .iter()
+                .filter(|(n, m)| n != "DisallowedVariableUsage" && !(nested && n == "UnsupportedValueType" && m.ends_with("found a variable")))
+                .collect();
             if !others.is_empty() {
                 ctx.class("usage_other_diagnostic", &others[0].0);
                 ctx.inconclusive(&format!("diagnostic other than the one under test: {others:?}"), case);
@@ -180,11 +212,12 @@ fn check_usage(ctx: &mut Ctx, a: &Ty, d: &str, b: &Ty, ld: bool) {
             let got_rejected = !diags.is_empty();
             ctx.class("verdict", &format!("usage:{}", expected.id()));
             ctx.class("usage_defaults", &format!("d={d},ld={ld}"));
+            ctx.class("usage_position", pos);
             ctx.nontrivial(&case.to_string());
             if got_rejected == expected.ok() {
                 let dir = if got_rejected { "apollo-rejects/oracle-accepts" } else { "apollo-accepts/oracle-rejects" };
                 ctx.violation(
-                    format!("usage|{dir}|{}", expected.id()),
+                    if pos == "arg" { format!("usage|{dir}|{}", expected.id()) } else { format!("usage|{pos}|{dir}|{}", expected.id()) },
                     format!(
                         "`{}` against `{}`: DisallowedVariableUsage reported = {got_rejected}, IsVariableUsageAllowed = {} ({})",
                         doc_text.trim(),
@@ -294,7 +327,12 @@ pub fn run(ctx: &mut Ctx) {
                     usage_space += 1;
                     idx += 1;
                     if ctx.mine(idx) {
-                        check_usage(ctx, a, d, b, ld);
+                        check_usage(ctx, "arg", a, d, b, ld);
+                        // the same case with the variable nested in an input object field or a list
+                        check_usage(ctx, "field", a, d, b, ld);
+                        if !ld {
+                            check_usage(ctx, "item", a, d, b, ld);
+                        }
                         if ctx.evals % 4096 == 0 {
                             ctx.sample(|| json!({"part": "usage", "a": a.text(), "d": d, "b": b.text(), "ld": ld}));
                         }
@@ -318,7 +356,7 @@ pub fn replay(ctx: &mut Ctx, case: &Value) {
         "assignable" => check_assignable(ctx, &a, &b),
         "usage" => {
             let ld = case.get("ld").and_then(|x| x.as_bool()).unwrap_or(false);
-            check_usage(ctx, &a, g("d"), &b, ld)
+            check_usage(ctx, if g("pos").is_empty() { "arg" } else { g("pos") }, &a, g("d"), &b, ld)
         }
         "impl" => check_impl(ctx, &impl_world(), &a, &b),
         _ => {}
